@@ -34,6 +34,7 @@ type Engine struct {
 	repo       string
 	exprIDs    map[*CExpr]int
 	traced     map[string]bool // functions whose calls are recorded in call-trace ghosts
+	tagTypes   map[int]types.Type
 }
 
 func repoDir() string {
@@ -122,7 +123,7 @@ func Load(patterns []string) (*Engine, error) {
 		if x == nil {
 			return
 		}
-		if x.Op == "call" && (x.Name == "called" || x.Name == "resultof" || x.Name == "argof" || x.Name == "callcount") && len(x.Args) > 0 {
+		if x.Op == "call" && (x.Name == "called" || x.Name == "resultof" || x.Name == "argof" || x.Name == "callcount" || x.Name == "seqof") && len(x.Args) > 0 {
 			eng.traced[flatName(x.Args[0])] = true
 		}
 		for _, a := range x.Args {
@@ -178,7 +179,18 @@ func (eng *Engine) typeTag(t types.Type) int {
 	}
 	id := len(eng.typeTags) + 1
 	eng.typeTags[k] = id
+	if eng.tagTypes == nil {
+		eng.tagTypes = map[int]types.Type{}
+	}
+	eng.tagTypes[id] = t
 	return id
+}
+
+// typeOfTag: the Go type that received this interface tag (nil if unknown).
+func (eng *Engine) typeOfTag(id int) types.Type {
+	eng.mu.Lock()
+	defer eng.mu.Unlock()
+	return eng.tagTypes[id]
 }
 
 func (eng *Engine) typeTagByName(name string) int {
@@ -435,7 +447,7 @@ func (eng *Engine) mentionsCallTrace(x *CExpr) bool {
 	}
 	if x.Op == "call" {
 		switch x.Name {
-		case "called", "resultof", "argof", "callcount":
+		case "called", "resultof", "argof", "callcount", "seqof":
 			return true
 		}
 		if m, ok := eng.db.Macros[x.Name]; ok && eng.mentionsCallTrace(m.Body) {
